@@ -66,6 +66,13 @@ claim("C08",
       "re-establishes). Partial: isolation between peers and deadlock freedom are concurrency properties outside.",
       "DESIGN.md §4 C08")
 
+claim("C14",
+      "Proof of the port take/release balance of the session (a failed add leaves the free-port set exactly as it was, "
+      "including the deferred release on every error path; a successful add removes exactly the returned port). "
+      "Partial: concurrent adders, restart equivalence through a real database and the resume codec pairing are outside "
+      "or not yet under contract (see evidence).",
+      "DESIGN.md §4 C14")
+
 na("C10", "liveness/progress over unbounded schedules of several goroutines: a function contract cannot state fairness or progress measures (DESIGN.md §4 C10)")
 na("C20", "data races and lock-ups quantify over schedules; the contracts are sequential and assume the single-owner discipline C20 asks to prove (DESIGN.md §4 C20)")
 for p in ["C01", "C02", "C04", "C05", "C06", "C07", "C08", "C09", "C11", "C12", "C13", "C14", "C15", "C17", "C18", "C19"]:
